@@ -65,9 +65,13 @@ mod distinct;
 mod distinct2;
 mod distinct3;
 mod gen;
+mod nested;
 mod reject;
 mod round4;
 mod walk;
+#[path = "../c05/tw.rs"]
+#[allow(dead_code)]
+mod tw;
 
 pub struct Ctx {
     /// type names the translator covered (reader layout + writer program emitted)
@@ -171,6 +175,8 @@ where
     };
     s.count(&format!("compiled:{ty}"));
     s.count(&format!("family-compiled:{}", family_of(ty, label)));
+    // C04 ⇄ C05 bridge: the object graph the real TableWriter builds for this value (nested.rs)
+    nested::bridge(s, ty, label, v, &b1);
     let back = catch(|| read(&b1));
     let v2 = match back {
         Err(p) => {
@@ -299,6 +305,7 @@ fn run(cfg: &Config, s: &mut Session) {
         seen: Default::default(),
     };
     s.notes.push(format!("translator covered {} (writer, reader) pairs usable for correspondence", cx.covered.len()));
+    nested::set_cap(if cfg.thorough() { 400 } else { 40 });
     let only = std::env::var("C04_ONLY").unwrap_or_default();
     if only.is_empty() || only == "corpus" {
         corpus::run(cfg, s, &mut cx);
